@@ -6,7 +6,7 @@ CONSTANTS MaxDims = 3
           Slice = 0
           MaxNodes = 8
           AllPer = TRUE
-          LawMax = 12
+          LawMax = 6
           Extra = 1
 INVARIANT Laws
 INVARIANT Out
